@@ -215,9 +215,12 @@ impl FmtAttribute {
         fields: &syn::Fields,
     ) -> Option<(Expr, syn::Ident)> {
         self.transparent_call().map(|(expr, trait_ident)| {
+            // Only a field named inside the literal itself (`{field:p}`) denotes the field. Passed
+            // as an argument, a field is a reference to it, like in the non-transparent case.
             let expr = if let Some(field) = fields
                 .fmt_args_idents()
                 .find(|field| expr == *field || expr == field.unraw())
+                .filter(|_| self.args.is_empty())
             {
                 field.into()
             } else {
